@@ -997,16 +997,25 @@ def check_replay(ck, R):
         else:
             outs.append((r, lits, None, None))
     ck.need(outs, "process_existing_memento: no return reached")
-    is_exc = "isinstance(%s, MementoException)" % read
+    def exc_test(lits, pol):
+        """Has the path seen `isinstance(<the value read>, MementoException)` answer `pol`?"""
+        for (tx, p) in lits:
+            if p != pol or tx.startswith("@"):
+                continue
+            it = A.isinstance_types(_parse(tx))
+            if it and it[0] == read and [t.split(".")[-1] for t in it[1]] == ["MementoException"]:
+                return True
+        return False
+
     unwrapped = A.norm(_parse("(%s).to_exception()" % read))
     valid = [o for o in outs if o[3] != "False"]  # every answer that is not "recompute"
-    on_exc = [o for o in valid if (is_exc, True) in o[1]]
+    on_exc = [o for o in valid if exc_test(o[1], True)]
     okt = bool(on_exc) and all(o[2] == unwrapped and o[3] == "True" for o in on_exc)
     ck.ob(R, pe.key(None, "unwraps-exception"), okt, "a stored MementoException is rebuilt into the original exception class" if okt else
           "a stored MementoException is not passed through to_exception()", pe.where())
     with_value = [o for o in valid if o[2] != "None"]
     okv = bool(with_value) and all(o[3] == "True" and o[2] in (read, unwrapped) for o in with_value) and any(o[2] == read for o in with_value) \
-        and all(o[2] == read for o in with_value if (is_exc, False) in o[1])
+        and all(o[2] == read for o in with_value if exc_test(o[1], False))
     ck.ob(R, pe.key(None, "returns-read-value"), okv, "the value read back is returned as valid" if okv else
           "process_existing_memento does not return the value it read", pe.where())
     ign = [o for o in valid if o[2] == "None"]
@@ -1035,6 +1044,11 @@ def check_replay(ck, R):
         nm = A.call_attr(c)
         if nm in MAY_RAISE and not (nm == "getattr" and len(c.args) != 2):
             risky.append((c, MAY_RAISE[nm], "%s(...)" % nm))
+    for c in tx.calls():
+        if isinstance(c.func, ast.Call) and A.call_attr(c.func) == "attrgetter":
+            risky.append((c, MAY_RAISE["getattr"], "attrgetter(...)(...)"))
+        elif A.call_attr(c) == "reduce" and c.args and isinstance(c.args[0], ast.Name) and c.args[0].id == "getattr":
+            risky.append((c, MAY_RAISE["getattr"], "reduce(getattr, ...)"))
     # calling the reconstructed class itself
     for c in tx.calls():
         if isinstance(c.func, ast.Name) and tx.df.is_local(c.func.id) and c.func.id not in ("match",):
